@@ -1,5 +1,6 @@
 import FastraceModel.Driver.Codec
 import FastraceModel.Driver.Report
+import FastraceModel.Driver.Seq
 open Fastrace.Driver
 
 /-- line-protocol driver: first line `mode <m>`, then one request per line -/
@@ -9,6 +10,13 @@ partial def loop (h : IO.FS.Stream) (out : IO.FS.Stream) (step : String → Stri
   out.putStrLn (step line)
   loop h out step
 
+partial def loopSt {σ : Type} (h : IO.FS.Stream) (out : IO.FS.Stream) (step : σ → String → σ × String) (st : σ) : IO Unit := do
+  let line ← h.getLine
+  if line.isEmpty then return ()
+  let (st, o) := step st line
+  out.putStrLn o
+  loopSt h out step st
+
 def main : IO Unit := do
   let stdin ← IO.getStdin
   let stdout ← IO.getStdout
@@ -16,4 +24,5 @@ def main : IO Unit := do
   match words first with
   | ["mode", "codec"] => loop stdin stdout codecStep
   | ["mode", "report"] => loop stdin stdout reportStep
+  | ["mode", "seq"] => loopSt stdin stdout seqStep ⟨Fastrace.Sys.init, 0⟩
   | _ => IO.eprintln "fmodel: unknown mode"; IO.Process.exit 2
